@@ -121,4 +121,23 @@ PROPS = {
         "units": [U("prio", "TestC17", q(6000), q(50000, 16))],
         "assumptions": [BUBBLE, RAPID, SAMPLED, "the script never has two AddInput/RemoveInput calls for one priority outstanding at once (their order would be undefined)", "reads of a removed channel are bounded from above at the return of the call (the producer's counter may lag by one) and exact at the end"],
     },
+    "C19": {
+        "level": "exploration",
+        "units": [
+            U("limitl", "TestC19", q(8000), q(60000, 4)),
+            U("joinl", "TestC19", q(8000), q(80000, 6)),
+            U("prio", "TestC19", q(6000), q(60000, 6)),
+        ],
+        "assumptions": [BUBBLE, RAPID, "'started by the discipline' = goroutines whose creation site is a function of the module under test (runtime.Stack 'created by' line)", "in addition synctest fails the case when the bubble's root returns while goroutines of the bubble are still blocked"],
+    },
+    "C20": {
+        "level": "exploration",
+        "units": [
+            U("racel", "TestC20", q(600, timeout=900), q(4000, 8, timeout=3000), race=True),
+            U("prio", "TestC20", q(1500), q(12000, 4), race=True),
+            U("joinl", "TestC20", q(3000), q(20000, 2), race=True),
+            U("limitl", "TestC20", q(3000), q(20000, 2), race=True),
+        ],
+        "assumptions": ["Go race detector (happens-before based; reports only races in executed schedules)", RAPID, "free-running scenarios are not pinned by the seed (the script is, the interleaving is not); a reported race is confirmed by re-running its script up to 10 times", "inside bubbles synctest.Wait adds happens-before edges between harness and discipline, which is why the real-time scenarios exist"],
+    },
 }
